@@ -2,8 +2,8 @@
 META = {
     "level": "exploration",
     "technique": "history + executable model: seeded slot_testv_and_readv_and_writev / slot_readv histories on the real StorageServer compared with a bytearray model and an independent container parser after every operation",
-    "text": "Drives the real StorageServer.slot_testv_and_readv_and_writev / slot_readv on a temp dir with histories of <=40 operations per share (1..3 shares per storage index): writes inside, at the end, past the end and far past the end (container growth with relocation of the extra-lease area), smaller/equal/larger/zero new_length, passing and failing test vectors, reads at boundary ranges; containers are v2 or v1 (created by the repo's own v1 schema object) and pre-loaded with 0..10 leases through add_lease. After every operation the return value, a full read of every share, existence of share file and bucket directory, and the lease records (parsed independently from the documented layout, and through get_leases) are compared with a bytearray + lease-list model.",
-    "note": "Trusts the bytearray model (apply(): zero-extend, slice-assign, truncate), the independent parser in _storage.py; zero-length writes past the end are generated but not judged (the statement leaves them open); write vectors within one request never overlap (interfaces.py leaves the order unspecified).",
+    "text": "Drives the real StorageServer.slot_testv_and_readv_and_writev / slot_readv on a temp dir with histories of <=40 operations per share (1..3 shares per storage index): writes inside, at the end, past the end and far past the end, several vectors per operation including overlapping ones (container growth with relocation of the extra-lease area), smaller/equal/larger/zero new_length, passing and failing test vectors, reads at boundary ranges; containers are v2 or v1 (created by the repo's own v1 schema object) and pre-loaded with 0..10 leases through add_lease. After every operation the return value, a full read of every share, existence of share file and bucket directory, and the lease records (parsed independently from the documented layout, and through get_leases) are compared with a bytearray + lease-list model.",
+    "note": "Trusts the bytearray model (apply(): zero-extend, slice-assign, truncate), the independent parser in _storage.py; zero-length writes past the end are generated but not judged (the statement leaves them open); write vectors of one operation may overlap (nested, identical range, reversed, later one reaching further) and are modelled as successive slice assignments in list order, as the property's byte-array reading requires (interfaces.py calls the order of overlapping vectors unspecified; the coordinator decided list order is the property).",
 }
 LEVEL = "exploration"
 BUDGET = {"quick": 40, "thorough": 240}
@@ -19,8 +19,19 @@ RENEW = 31 * 24 * 60 * 60
 apply_writes = S.apply_writes
 
 
+def overlapping_pairs(datav):
+    return [(i, j) for i in range(len(datav)) for j in range(i + 1, len(datav))
+            if len(datav[i][1]) and len(datav[j][1])
+            and datav[i][0] < datav[j][0] + len(datav[j][1]) and datav[j][0] < datav[i][0] + len(datav[i][1])]
+
+
 def classify_data(pre, datav, new_length, model_post, real):
     """mechanism class of a data mismatch (deterministic)."""
+    if overlapping_pairs(datav) and len(datav) <= 6:
+        import itertools
+        for perm in itertools.permutations(datav):
+            if list(perm) != list(datav) and bytes(apply_writes(pre, list(perm), new_length)) == bytes(real):
+                return "overlapping-vectors-not-applied-in-list-order"
     if len(real) != len(model_post):
         after = len(apply_writes(pre, datav, None))
         if new_length is not None and new_length < after and len(real) > new_length:
@@ -70,7 +81,8 @@ def run(ck):
     for r in ("container-growth", "growth-with-extra-leases", "gap-fill", "truncate", "larger-new-length",
               "delete-share", "bucket-dir-removed", "testv-fail", "testv-on-missing-share", "read-clipped",
               "v1-container", "v2-container", "write-exactly-to-container-end", "regrow-after-truncate",
-              "leases>4"):
+              "leases>4", "overlapping-vectors", "overlap-later-ends-further", "overlap-nested",
+              "overlap-identical-range", "overlap-reversed-order"):
         ck.require_reach(r)
     ck.exhaustive = False
 
@@ -244,6 +256,28 @@ def _one_case(ck, rng, case, MutableShareFile):
                 taken.append((o, o + max(n, 1)))
                 datav.append((o, S.rand_bytes(rng, n)))
                 cur = max(cur, o + n)
+            # overlapping vectors inside ONE operation: successive slice assignments, the later-listed one wins
+            if rng.random() < .25:
+                if datav and len(datav[-1][1]) >= 2 and rng.random() < .7:
+                    bo, bw = datav[-1]
+                else:
+                    bo = gen_offsets(cur, container)
+                    bw = S.rand_bytes(rng, rng.choice([2, 4, 9, 60]))
+                    datav.append((bo, bw))
+                for _ in range(rng.choice([1, 1, 2])):
+                    k = rng.randint(1, len(bw) - 1)
+                    kind = rng.choice(["later-ends-further", "later-ends-further", "nested", "identical-range",
+                                       "reversed", "same-start-longer"])
+                    if kind == "later-ends-further":
+                        datav.append((bo + k, S.rand_bytes(rng, len(bw) - k + rng.choice([1, 2, 30]))))
+                    elif kind == "nested":
+                        datav.append((bo + k, S.rand_bytes(rng, rng.randint(1, len(bw) - k))))
+                    elif kind == "identical-range":
+                        datav.append((bo, S.rand_bytes(rng, len(bw))))
+                    elif kind == "same-start-longer":
+                        datav.append((bo, S.rand_bytes(rng, len(bw) + rng.choice([1, 5]))))
+                    else:   # the vector listed first starts later and ends further; the second one is applied on top
+                        datav[-1:] = [(bo + k, S.rand_bytes(rng, len(bw))), (bo, bw)]
             after = len(apply_writes(pre, datav, None))
             r = rng.random()
             if r < .55:
@@ -375,6 +409,17 @@ def _one_case(ck, rng, case, MutableShareFile):
                     ck.hit("growth-with-extra-leases")
             if sh in pre_container and any(468 + o + len(w) == pre_container[sh] for o, w in datav):
                 ck.hit("write-exactly-to-container-end")
+            for (i, j) in overlapping_pairs(datav):
+                (oi, wi), (oj, wj) = datav[i], datav[j]
+                ck.hit("overlapping-vectors")
+                if oj + len(wj) > oi + len(wi):
+                    ck.hit("overlap-later-ends-further")
+                if oi <= oj and oj + len(wj) <= oi + len(wi) and (oi, len(wi)) != (oj, len(wj)):
+                    ck.hit("overlap-nested")
+                if (oi, len(wi)) == (oj, len(wj)):
+                    ck.hit("overlap-identical-range")
+                if oj < oi:
+                    ck.hit("overlap-reversed-order")
             cur = len(old)
             for o, w in datav:
                 if o > cur:
